@@ -463,7 +463,7 @@ World *Wd = nullptr;
 struct StaticRange { char *addr; size_t size; std::string name; };
 std::vector<StaticRange> g_statics;
 std::string g_static_pristine;                       // concatenated initial contents
-std::vector<std::string> g_static_copies;            // per simulated process (index = sim proc id), empty = pristine
+std::vector<std::string> g_static_copies;            // per simulated process (index = sim proc id), preallocated per run
 extern "C" char __executable_start;
 
 void load_static_table(const char *argv0) {
@@ -478,9 +478,11 @@ void load_static_table(const char *argv0) {
   }
   for (auto &r : g_statics) g_static_pristine.append(r.addr, r.size);
 }
+// no allocation in here: the hook runs inside the scheduler's task switch, where an allocation decision point of
+// the switching task would re-enter the scheduler (every copy is preallocated at run start)
 void statics_store(std::string &buf) {
-  buf.clear();
-  for (auto &r : g_statics) buf.append(r.addr, r.size);
+  size_t off = 0;
+  for (auto &r : g_statics) { memcpy(&buf[off], r.addr, r.size); off += r.size; }
 }
 void statics_load(const std::string &buf) {
   size_t off = 0;
@@ -967,12 +969,12 @@ struct Jobs {
     std::streambuf *old_out = std::cout.rdbuf();
     struct NullBuf : std::streambuf { int overflow(int c) override { return c; } std::streamsize xsputn(const char *, std::streamsize n) override { return n; } } nb;
     std::cout.rdbuf(&nb);
-    if (!g_statics.empty()) { statics_load(g_static_pristine); g_static_copies.assign(NP + 2, std::string()); rep.counters["probe.per_process_statics"] = (long)g_statics.size(); }
+    if (!g_statics.empty()) { statics_load(g_static_pristine); g_static_copies.assign(NP + 2, g_static_pristine); rep.counters["probe.per_process_statics"] = (long)g_statics.size(); }
     sim::Result res = sim::run(cfg, [&] {
       if (!g_statics.empty())
         sim::set_on_proc_switch([](int from, int to) {
           if ((size_t)from < g_static_copies.size()) statics_store(g_static_copies[(size_t)from]);
-          if ((size_t)to < g_static_copies.size()) statics_load(g_static_copies[(size_t)to].empty() ? g_static_pristine : g_static_copies[(size_t)to]);
+          if ((size_t)to < g_static_copies.size()) statics_load(g_static_copies[(size_t)to]);
         });
       sim::set_on_decision([&] { if (states.size() < 200000) states.push_back(sim::abstract_state()); });
       // allocation points: only in worker threads of the simulated processes while they hold no thread mutex. In
